@@ -222,6 +222,7 @@ func runC02(cx *ctx) {
 			return srCase("crash-prefix", key, left, false, nil, false, []int{C}, pt, ct, fmt.Sprintf("pt=%d writer stopped after %d of %d writes", len(pt), k, len(segs)))
 		})
 	}
+	c02Extra(cx)
 }
 
 func bit0(n int) bool { return n%2 == 0 }
